@@ -117,9 +117,9 @@ def random_orthog_directions_within_bounds(num_pts, delta, lower, upper, with_ne
         results = np.zeros((n, max(2*n, num_pts)))  # save space for results
     else:
         results = np.zeros((n, max(n, num_pts)))  # save space for results
-    # Find the active set
-    idx_l = (lower == 0)
-    idx_u = (upper == 0)
+    # Find the active set (a bound closer than rounding level counts as active: a step towards it has length zero)
+    idx_l = (lower >= -1e-15 * delta)
+    idx_u = (upper <= 1e-15 * delta)
     active = np.logical_or(idx_l, idx_u)
     inactive = np.logical_not(active)
     nactive = np.sum(active)
@@ -185,9 +185,9 @@ def random_directions_within_bounds(num_pts, delta, lower, upper):
     assert delta > 0, "delta must be strictly positive"
     assert num_pts > 0, "num_pts must be strictly positive"
     results = np.zeros((n, num_pts))  # save space for results
-    # Find the active set
-    idx_l = (lower == 0)
-    idx_u = (upper == 0)
+    # Find the active set (a bound closer than rounding level counts as active: a step towards it has length zero)
+    idx_l = (lower >= -1e-15 * delta)
+    idx_u = (upper <= 1e-15 * delta)
     active = np.logical_or(idx_l, idx_u)
     # inactive = np.logical_not(active)
     nactive = np.sum(active)
